@@ -673,9 +673,15 @@ func (w *WalletManager) signWitnessTx(password []byte, tx *wire.MsgTx, hashType 
 		scriptFlags := txscript.StandardVerifyFlags
 		// a pending (unconfirmed) parent has no block yet; it can only
 		// confirm above the current tip
-		prevHeight := w.ChainIndexerSyncedHeight() + 1
+		var prevHeight uint64
 		if meta := cacheMeta[txIn.PreviousOutPoint.Hash]; meta != nil {
 			prevHeight = meta.Height
+		} else {
+			syncedHeight, err := w.SyncedTo()
+			if err != nil {
+				return err
+			}
+			prevHeight = syncedHeight + 1
 		}
 		if forks.EnforceMASSIP0002WarmUp(prevHeight) {
 			scriptFlags |= txscript.ScriptMASSip2
